@@ -155,6 +155,39 @@ def reduce_check(ctx, c, outs):
     return None
 
 
+def reduce_bulk_check(ctx, c, outs):
+    """many seeded misorientations of one pair in ONE call (the cost of the reduction is dominated by its loop over
+    operation pairs, not by the number of misorientations): orbit membership and minimal angle, vectorised"""
+    Gl, Gr = groups()[c["kl"]], groups()[c["kr"]]
+    g = np.random.default_rng(c["bulk"])
+    q = g.normal(size=(c["n"], 4))
+    q /= np.linalg.norm(q, axis=1)[:, None]
+    with warnings.catch_warnings():
+        warnings.simplefilter("ignore")
+        try:
+            R = mis(Gl, Gr, q, (c["n"],)).map_into_symmetry_reduced_zone()
+        except NotImplementedError:
+            return None if not region_defined(Gl, Gr) else "NotImplementedError although a region is defined"
+    r = R.data.reshape(-1, 4)
+    pl, pr = proper_ops(Gl), proper_ops(Gr)
+    orb = hmul(hmul(pl[None, :, None, :], q[:, None, None, :]), pr[None, None, :, :]).reshape(c["n"], -1, 4)
+    best = np.abs(orb[..., 0]).max(axis=1)
+    d = np.minimum(np.abs(orb - r[:, None, :]).max(axis=2), np.abs(orb + r[:, None, :]).max(axis=2)).min(axis=1)
+    bad = np.flatnonzero(d > TOL_Q)
+    if bad.size:
+        i = int(bad[0])
+        return (f"result {r[i].tolist()} is not gl*M*gr for proper operations of ({Gl.name}, {Gr.name}); M = {q[i].tolist()} "
+                f"({bad.size} of {c['n']})")
+    ang_r = 2 * np.arccos(np.clip(np.abs(r[:, 0]), 0, 1))
+    ang_min = 2 * np.arccos(np.clip(best, 0, 1))
+    bad = np.flatnonzero(ang_r > ang_min + TOL_ANG)
+    if bad.size:
+        i = int(bad[0])
+        return (f"result has rotation angle {float(ang_r[i])!r} but the orbit of M under ({Gl.name}, {Gr.name}) contains an "
+                f"element of angle {float(ang_min[i])!r}; M = {q[i].tolist()} ({bad.size} of {c['n']} seeded misorientations)")
+    return None
+
+
 def normals_check(ctx, c, outs):
     """every large-cell normal orix builds is a positive multiple of 1 + d or 1 - d for a distinguished point d
     (the hypothesis shape of theorem inside_unpruned_region_in_large_cell)"""
@@ -187,6 +220,7 @@ SITES = {
     "large_cell_normals": sites.Site("large_cell_normals", "prop", normals_check),
     "loop_model": sites.Site("loop_model", "corr", loop_check, loop_lines),
     "reduce": sites.Site("reduce", "prop", reduce_check),
+    "reduce_bulk": sites.Site("reduce_bulk", "prop", reduce_bulk_check),
 }
 def _inv_improper(case):
     gs = groups()
@@ -242,8 +276,32 @@ def generate(ctx):
         key = [p for p in cross if (p[0] in cub and p[1] in hexa) or (p[1] in cub and p[0] in hexa)]
         rest = [p for p in cross if p not in key]
         idx = rng.choice(len(rest), 8, replace=False)
-        kidx = rng.choice(len(key), 10, replace=False)      # half of the cubic x hexagonal ordered pairs per run
-        cross = [key[i] for i in kidx] + [rest[i] for i in idx]
+        # cubic x hexagonal/trigonal: five unordered pairs per run, both orders (one process: order-keyed caches), in bulk
+        und = sorted({tuple(sorted(p)) for p in key})
+        for i in rng.choice(len(und), 5, replace=False):
+            a, b = und[int(i)]
+            for kl, kr in ((a, b), (b, a)):
+                ctx.count("reduce_bulk/cubic-x-hexagonal", ("rb", kl, kr), nontrivial=True)
+                yield "reduce_bulk", {"kl": int(kl), "kr": int(kr), "bulk": int(rng.integers(1 << 31)), "n": 80}
+        cross = [rest[i] for i in idx]
+    else:
+        for kl, kr in cross:
+            cub_hex = {gs[kl].system, gs[kr].system} & {"cubic"} and {gs[kl].system, gs[kr].system} & {"trigonal", "hexagonal"}
+            if cub_hex:
+                ctx.count("reduce_bulk/cubic-x-hexagonal", ("rb", kl, kr), nontrivial=True)
+                yield "reduce_bulk", {"kl": int(kl), "kr": int(kr), "bulk": int(rng.integers(1 << 31)), "n": 400}
+    # improper pairs in bulk (region construction goes through get_proper_groups)
+    imp = [k for k, g in enumerate(gs) if not g.is_proper]
+    for _ in range(8 if ctx.tier == "quick" else 60):
+        kl, kr = int(imp[rng.integers(len(imp))]), int(rng.integers(nG))
+        if rng.random() < 0.5:
+            kl, kr = kr, kl
+        if gs[kl].size * gs[kr].size > 300 and ctx.tier == "quick":
+            continue
+        if _inv_improper({"kl": kl, "kr": kr}):
+            continue        # open finding C05-laue-proper-subgroup-operations (reported by site reduce)
+        ctx.count("reduce_bulk/improper", ("rbi", kl, kr), nontrivial=True)
+        yield "reduce_bulk", {"kl": kl, "kr": kr, "bulk": int(rng.integers(1 << 31)), "n": 60}
     pairs += cross
     per = 1 if ctx.tier == "quick" else 2
     for kl, kr in pairs:
